@@ -133,7 +133,7 @@ let tok_of_event = function
   | EDictPop (e, k) -> "dpop:" ^ sid e ^ ":" ^ tok_of_str k
 
 let tok_of_exn = function
-  | XAssert -> "assert" | XValue -> "value" | XKey -> "key" | XRuntime -> "runtime" | XType -> "type"
+  | XAssert -> "assert" | XValue -> "value" | XKey -> "key" | XRuntime -> "runtime" | XType -> "type" | XStuck -> "key"
 
 let sdata l = ssorted (fun (k, v) -> tok_of_str k ^ "=" ^ tok_of_val v) l
 
@@ -158,30 +158,30 @@ let dump_obj (s : state) (x : id) : Stdlib.String.t =
      add (sid x ^ ":" ^ tok_of_kind k);
      (match k with
       | KNetlist ->
-        add (" libs=" ^ slist sid (s.kids RLibs x) ^ " top=" ^ soid (s.top x)
-             ^ " data=" ^ sdata (s.data x) ^ " ns=" ^ sns (s.nstab x))
+        add ("; libs=" ^ slist sid (s.kids RLibs x) ^ "; top=" ^ soid (s.top x)
+             ^ "; data=" ^ sdata (s.data x) ^ "; ns=" ^ sns (s.nstab x))
       | KLibrary ->
-        add (" par=" ^ soid (s.par RLibs x) ^ " defs=" ^ slist sid (s.kids RDefs x)
-             ^ " data=" ^ sdata (s.data x) ^ " ns=" ^ sns (s.nstab x))
+        add ("; par=" ^ soid (s.par RLibs x) ^ "; defs=" ^ slist sid (s.kids RDefs x)
+             ^ "; data=" ^ sdata (s.data x) ^ "; ns=" ^ sns (s.nstab x))
       | KDefinition ->
-        add (" par=" ^ soid (s.par RDefs x) ^ " ports=" ^ slist sid (s.kids RPorts x)
-             ^ " cables=" ^ slist sid (s.kids RCables x) ^ " children=" ^ slist sid (s.kids RChildren x)
-             ^ " refs=" ^ ssorted sid (s.drefs x) ^ " data=" ^ sdata (s.data x) ^ " ns=" ^ sns (s.nstab x))
+        add ("; par=" ^ soid (s.par RDefs x) ^ "; ports=" ^ slist sid (s.kids RPorts x)
+             ^ "; cables=" ^ slist sid (s.kids RCables x) ^ "; children=" ^ slist sid (s.kids RChildren x)
+             ^ "; refs=" ^ ssorted sid (s.drefs x) ^ "; data=" ^ sdata (s.data x) ^ "; ns=" ^ sns (s.nstab x))
       | KPort ->
-        add (" par=" ^ soid (s.par RPorts x) ^ " pins=" ^ slist sid (s.kids RPins x)
-             ^ " dn=" ^ sbool (s.bdownto x) ^ " sc=" ^ sbool (read_scalar s x)
-             ^ " lo=" ^ string_of_int (int_of_z (s.blower x)) ^ " dir=" ^ sdir (s.pdir x)
-             ^ " data=" ^ sdata (s.data x))
+        add ("; par=" ^ soid (s.par RPorts x) ^ "; pins=" ^ slist sid (s.kids RPins x)
+             ^ "; dn=" ^ sbool (s.bdownto x) ^ "; sc=" ^ sbool (read_scalar s x)
+             ^ "; lo=" ^ string_of_int (int_of_z (s.blower x)) ^ "; dir=" ^ sdir (s.pdir x)
+             ^ "; data=" ^ sdata (s.data x))
       | KCable ->
-        add (" par=" ^ soid (s.par RCables x) ^ " wires=" ^ slist sid (s.kids RWires x)
-             ^ " dn=" ^ sbool (s.bdownto x) ^ " sc=" ^ sbool (read_scalar s x)
-             ^ " lo=" ^ string_of_int (int_of_z (s.blower x)) ^ " data=" ^ sdata (s.data x))
-      | KWire -> add (" par=" ^ soid (s.par RWires x) ^ " pins=" ^ slist tok_of_pin (s.wpins x))
-      | KPin -> add (" par=" ^ soid (s.par RPins x) ^ " wire=" ^ soid (s.ipwire x))
+        add ("; par=" ^ soid (s.par RCables x) ^ "; wires=" ^ slist sid (s.kids RWires x)
+             ^ "; dn=" ^ sbool (s.bdownto x) ^ "; sc=" ^ sbool (read_scalar s x)
+             ^ "; lo=" ^ string_of_int (int_of_z (s.blower x)) ^ "; data=" ^ sdata (s.data x))
+      | KWire -> add ("; par=" ^ soid (s.par RWires x) ^ "; pins=" ^ slist tok_of_pin (s.wpins x))
+      | KPin -> add ("; par=" ^ soid (s.par RPins x) ^ "; wire=" ^ soid (s.ipwire x))
       | KInstance ->
-        add (" par=" ^ soid (s.par RChildren x) ^ " ref=" ^ soid (s.iref x) ^ " istop=" ^ sbool (s.istop x)
-             ^ " pins=" ^ slist (fun (i, w) -> sid i ^ ">" ^ soid w) (s.ipins x)
-             ^ " data=" ^ sdata (s.data x))));
+        add ("; par=" ^ soid (s.par RChildren x) ^ "; ref=" ^ soid (s.iref x) ^ "; istop=" ^ sbool (s.istop x)
+             ^ "; pins=" ^ slist (fun (i, w) -> sid i ^ ">" ^ soid w) (s.ipins x)
+             ^ "; data=" ^ sdata (s.data x))));
   Buffer.contents b
 
 let dump (s : state) (out : exn option) : Stdlib.String.t =
